@@ -95,8 +95,9 @@ def observe_river(gridmod, flowdir, s, nval):
     return cells, lens, df
 
 
-def observe_acc(gridmod, Grid, nr, nc, fd, w, nprint=100):
-    flow = make_grid(Grid, nr, nc, fd)
+def observe_acc(gridmod, Grid, nr, nc, fd, w, nprint=100, flow=None):
+    if flow is None:
+        flow = make_grid(Grid, nr, nc, fd)
     field = None
     if w is not None:
         field = Grid("w", nc, nr, dtype=np.float64, nodata=-999)
@@ -196,12 +197,14 @@ def replay_grid_c11(ctx, gridmod, c, stats):
     nr, nc, fd = c["nr"], c["nc"], c["fd"]
     n = nr * nc
     case = {"nr": nr, "nc": nc, "fd": fd}
+    shared_flow = make_grid(Grid, nr, nc, fd)       # the same flow-direction grid object serves all accumulations of this grid
     for k, kind in enumerate(FIELDS):
         w = field_of(kind, n)
         for default in ((True, False) if kind == "unit" else (False,)):
             try:
                 out, same, acc = observe_acc(gridmod, Grid, nr, nc, fd, None if default else w,
-                                             nprint=[100, 1, 0, 3][(stats["accs"] + k) % 4])
+                                             nprint=[100, 1, 0, 3][(stats["accs"] + k) % 4],
+                                             flow=shared_flow if (stats["accs"] % 2) else None)
             except TimeoutError as e:
                 ctx.violation("accumulate:hang", str(e), dict(case, field=kind))
                 return
